@@ -275,7 +275,7 @@ bool owns(const std::string& prop, const std::string& c) {
     if (prop != "C20") return false;
     static const std::set<std::string> s = {"dead-callable", "not-a-new-thread", "finished-too-early", "call-count", "not-finished-after-join", "runnable-not-destroyed-once",
                                             "runnable-destroyed-while-running", "wrong-arguments", "callable-leaked", "join-hang", "terminate", "crash-signal", "tulz-assert",
-                                            "callable-state-lost"};
+                                            "callable-state-lost", "unexpected-exception"};
     return s.count(c) > 0 || c.rfind("asan:", 0) == 0 || c.rfind("tsan:", 0) == 0;
 }
 
@@ -304,7 +304,13 @@ void execute(const Json& program, const sim::Config& cfg, const std::string&) {
     sim::set_deadlock_classifier([](const std::vector<sim::ThreadInfo>&) { return std::string("join-hang"); });
     Mon mon;
     M = &mon;
-    sim::run(cfg, [&] { body(program); });
+    sim::run(cfg, [&] {
+        try {
+            body(program);
+        } catch (const std::exception& e) {  // valid use of the API must not throw: an escaping exception is an outcome to report, not a harness error
+            sim::violation("unexpected-exception", std::string("exception escaped from tulz under valid use: ") + e.what());
+        }
+    });
     auto& evs = sim::events();
     // probe: the new thread first ran after the launching frame had died
     int64_t launch_ret = -1, begin = -1;
